@@ -606,7 +606,7 @@ where
                             .and(data.index_axis(AX0, 1))
                             .and(data.index_axis(AX0, 2))
                             .for_each(|b, &y0, &y1, &y2| {
-                                *b = (tmp1 * (y1 - y0) / dx0 + dx0.pow(two) * (y2 - y1) / dx1) / d;
+                                *b = (tmp1 * (y1 - y0) / dx0 + dx0 * dx0 * (y2 - y1) / dx1) / d;
                             });
                     }
                     SingleBoundary::Natural => unreachable!(),
@@ -626,7 +626,7 @@ where
                             .and(data_0)
                             .and(data_1)
                             .for_each(|rhs_0, &y_0, &y_1| {
-                                *rhs_0 = three * (y_1 - y_0) - deriv * dx0.pow(two) / two;
+                                *rhs_0 = three * (y_1 - y_0) - deriv * dx0 * dx0 / two;
                             });
                     }
                 };
@@ -641,7 +641,7 @@ where
                             .and(data.index_axis(AX0, len - 2))
                             .and(data.index_axis(AX0, len - 3))
                             .for_each(|b, &y_1, &y_2, &y_3| {
-                                *b = (dx_1.pow(two) * (y_2 - y_3) / dx_2
+                                *b = (dx_1 * dx_1 * (y_2 - y_3) / dx_2
                                     + tmp1 * (y_1 - y_2) / dx_1)
                                     / d;
                             });
@@ -663,7 +663,7 @@ where
                             .and(data_n)
                             .and(data_n1)
                             .for_each(|rhs_n, &y_n, &y_n1| {
-                                *rhs_n = three * (y_n - y_n1) + deriv * dx_1.pow(two) / two;
+                                *rhs_n = three * (y_n - y_n1) + deriv * dx_1 * dx_1 / two;
                             });
                     }
                 };
